@@ -218,8 +218,13 @@ func (r *runner) stepThread(t int) {
 		}
 	}
 	r.solo[t]++
-	if r.inCall[t] && (r.inSteps[t] >= totalBudget || (r.solo[t] >= soloBudget && r.inSteps[t] >= soloBudget)) {
-		r.stuck[t] = true
+	// a thread that made soloBudget steps in a row inside one call without returning is parked
+	// (a spinning Wait, or a goroutine spinning on a lock held by a parked goroutine); it becomes
+	// schedulable again as soon as another thread has moved, until its call has used totalBudget
+	// steps
+	for u := range r.stuck {
+		r.stuck[u] = r.inCall[u] && (r.inSteps[u] >= totalBudget ||
+			(r.solo[u] >= soloBudget && r.inSteps[u] >= soloBudget))
 	}
 	it.Count = r.wg.Count()
 	it.Closed = []int{}
@@ -448,7 +453,7 @@ var catalogue = []namedProg{
 	// Add(0) is an Add call like any other (wg.Add(len(batch)) with an empty batch): on an idle
 	// group, between an Inc and its Dec, and after the group returned to zero
 	{"add0|wait", [][]callT{{add(0)}, {wait}}},
-	{"add0-inc-add0-dec-add0|wait", [][]callT{{add(0), add(1), add(0), add(-1)}, {wait, add(0), wait}}},
+	{"add0-inc-add0-dec|wait-add0", [][]callT{{add(0), add(1), add(0), add(-1)}, {wait, add(0)}}},
 	{"inc-dec|add0-wait", [][]callT{{add(1), add(-1)}, {add(0), wait}}},
 	// increments by more than one from zero, a decrement by more than one reaching exactly zero
 	{"add3-dec-dec2|wait", [][]callT{{add(3), add(-1), add(-2)}, {wait}}},
@@ -654,23 +659,106 @@ func (e *emitter) emit(c caseT) {
 
 // ---------------------------------------------------------------- free-running stress
 
-// stress runs catalogue programs with the Go scheduler in charge (no baton) and checks the
-// quiescent-state clauses only; with -race it also lets the race detector watch the code.
-func stress(seed uint64, iters int) int {
+// stress runs catalogue programs with the Go scheduler in charge (no baton).  Every call and
+// return is appended to one log under a mutex - the call entry before the call starts, the
+// return entry after it has returned - and an observer keeps appending which of the channels
+// handed out so far it has seen closed (checked BEFORE the entry is appended).  The log order
+// is therefore a linearisation in which increments count later and decrements earlier than in
+// real time and observations come later: judging it with c01_ok (lower bound = returned
+// increments + called decrements) can only miss violations, never invent one.  At the end of
+// each run the at-rest clauses of C02 are checked directly.  With -race the race detector
+// watches the code as well.
+type stressLog struct {
+	mu     sync.Mutex
+	items  []itemT
+	chans  []<-chan struct{}
+	closed map[int]bool
+}
+
+func (l *stressLog) closedList() []int {
+	out := []int{}
+	for i := range l.chans {
+		if l.closed[i] {
+			out = append(out, i)
+		}
+	}
+	return out
+}
+
+func (l *stressLog) event(tid int, ev string, c callT, val int, ch <-chan struct{}) {
+	l.mu.Lock()
+	defer l.mu.Unlock()
+	cc := c
+	it := itemT{Tid: tid, Ev: ev, Call: &cc, Val: val}
+	if ch != nil {
+		idx := -1
+		for i, k := range l.chans {
+			if k == ch {
+				idx = i
+			}
+		}
+		if idx < 0 {
+			l.chans = append(l.chans, ch)
+			idx = len(l.chans) - 1
+		}
+		it.Val = idx
+	}
+	it.Closed = l.closedList()
+	l.items = append(l.items, it)
+}
+
+func (l *stressLog) observe(tid int) {
+	l.mu.Lock()
+	cs := append([]<-chan struct{}{}, l.chans...)
+	l.mu.Unlock()
+	seen := map[int]bool{}
+	for i, ch := range cs {
+		if isClosed(ch) {
+			seen[i] = true
+		}
+	}
+	l.mu.Lock()
+	defer l.mu.Unlock()
+	changed := false
+	for i := range seen {
+		if !l.closed[i] {
+			l.closed[i] = true
+			changed = true
+		}
+	}
+	if changed || len(l.items) == 0 || l.items[len(l.items)-1].Ev != "stutter" {
+		l.items = append(l.items, itemT{Tid: tid, Ev: "stutter", Closed: l.closedList()})
+	}
+}
+
+type stressBad struct {
+	Program string    `json:"program"`
+	Progs   [][]callT `json:"progs"`
+	What    string    `json:"what"`
+}
+
+func stress(seed uint64, iters int, secs float64, em *emitter, maxTraces int) int {
 	r := gal.NewRand(seed)
 	var ctr atomic.Uint64
 	gsync.VerifYield = func(site int) {
-		if ctr.Add(1)%7 == 0 {
+		if ctr.Add(1)%5 == 0 {
 			runtime.Gosched()
 		}
 	}
 	bad := 0
-	for it := 0; it < iters; it++ {
+	report := func(np namedProg, what string) {
+		b, _ := json.Marshal(stressBad{np.name, np.progs, what})
+		fmt.Printf("STRESS-BAD %s\n", b)
+		bad++
+	}
+	deadline := time.Now().Add(time.Duration(secs * float64(time.Second)))
+	it := 0
+	for ; (secs > 0 && time.Now().Before(deadline)) || (secs <= 0 && it < iters); it++ {
 		np := catalogue[r.IntN(len(catalogue))]
 		wg := gsync.NewSelectableWaitGroup()
-		var mu sync.Mutex
-		var handed []<-chan struct{}
-		// cross-thread decrements need their increments first: use a semaphore of returned increments
+		lg := &stressLog{closed: map[int]bool{}}
+		obsTid := len(np.progs)
+		// cross-thread decrements need their increments first: a semaphore of returned increments
 		sem := make(chan struct{}, 64)
 		var done sync.WaitGroup
 		sum := 0
@@ -679,20 +767,24 @@ func stress(seed uint64, iters int) int {
 				sum += c.D
 			}
 		}
-		for _, th := range np.progs {
-			th := th
+		start := make(chan struct{})
+		for t, th := range np.progs {
+			t, th := t, th
 			done.Add(1)
 			go func() {
 				defer done.Done()
+				<-start
 				for _, c := range th {
 					switch {
 					case c.K == "wait":
+						lg.event(t, "call", c, 0, nil)
 						ch := wg.Wait()
-						mu.Lock()
-						handed = append(handed, ch)
-						mu.Unlock()
-					case c.D > 0:
-						wg.Add(c.D)
+						lg.event(t, "ret", c, 0, ch)
+						lg.observe(obsTid)
+					case c.D >= 0:
+						lg.event(t, "call", c, 0, nil)
+						v := wg.Add(c.D)
+						lg.event(t, "ret", c, v, nil)
 						for i := 0; i < c.D; i++ {
 							sem <- struct{}{}
 						}
@@ -700,35 +792,52 @@ func stress(seed uint64, iters int) int {
 						for i := 0; i < -c.D; i++ {
 							<-sem
 						}
-						wg.Add(c.D)
+						lg.event(t, "call", c, 0, nil)
+						v := wg.Add(c.D)
+						lg.event(t, "ret", c, v, nil)
 					}
 				}
 			}()
 		}
 		fin := make(chan struct{})
 		go func() { done.Wait(); close(fin) }()
-		select {
-		case <-fin:
-		case <-time.After(10 * time.Second):
-			fmt.Printf("STRESS-BAD program=%s: goroutines did not finish (a Wait call spins)\n", np.name)
-			bad++
+		close(start)
+		hung := false
+	poll:
+		for {
+			select {
+			case <-fin:
+				break poll
+			case <-time.After(5 * time.Second):
+				hung = true
+				break poll
+			default:
+				lg.observe(obsTid)
+				runtime.Gosched()
+			}
+		}
+		if hung {
+			report(np, "goroutines did not finish (a Wait call spins)")
 			continue
 		}
+		lg.observe(obsTid)
 		if wg.Count() != sum {
-			fmt.Printf("STRESS-BAD program=%s: Count()=%d, sum of deltas=%d\n", np.name, wg.Count(), sum)
-			bad++
+			report(np, fmt.Sprintf("at rest Count()=%d but the sum of deltas is %d", wg.Count(), sum))
 		}
 		if sum == 0 {
-			for _, ch := range handed {
+			lg.mu.Lock()
+			open := -1
+			for i, ch := range lg.chans {
 				if !isClosed(ch) {
-					fmt.Printf("STRESS-BAD program=%s: count 0 at rest but a handed-out channel is open\n", np.name)
-					bad++
-					break
+					open = i
 				}
 			}
+			lg.mu.Unlock()
+			if open >= 0 {
+				report(np, fmt.Sprintf("count 0 at rest but handed-out channel #%d is open", open))
+			}
 			if wg.WaitTimeout(time.Second) != nil {
-				fmt.Printf("STRESS-BAD program=%s: WaitTimeout failed at count 0\n", np.name)
-				bad++
+				report(np, "WaitTimeout(1s) returned an error at count 0")
 			}
 		} else {
 			res := make(chan bool, 1)
@@ -736,16 +845,22 @@ func stress(seed uint64, iters int) int {
 			select {
 			case cl := <-res:
 				if cl {
-					fmt.Printf("STRESS-BAD program=%s: count %d at rest but Wait returned a closed channel\n", np.name, sum)
-					bad++
+					report(np, fmt.Sprintf("count %d at rest but Wait() returned a closed channel", sum))
 				}
 			case <-time.After(2 * time.Second):
-				fmt.Printf("STRESS-BAD program=%s: Wait() does not return at rest (count %d)\n", np.name, sum)
-				bad++
+				report(np, fmt.Sprintf("Wait() does not return at rest (count %d)", sum))
 			}
 		}
+		if em != nil && em.out.N < maxTraces {
+			progs := append(append([][]callT{}, np.progs...), []callT{})
+			sched := make([]int, len(lg.items))
+			for i, x := range lg.items {
+				sched[i] = x.Tid
+			}
+			em.emit(caseT{Kind: "stress", Name: np.name, Progs: progs, Sched: sched, Obs: lg.items, Tmo: 3})
+		}
 	}
-	fmt.Printf("STRESS iterations=%d bad=%d\n", iters, bad)
+	fmt.Printf("STRESS iterations=%d bad=%d\n", it, bad)
 	return bad
 }
 
@@ -761,10 +876,19 @@ func main() {
 	maxCases := flag.Int("max", 200000, "stop enumerating after this many cases per program")
 	tmoEvery := flag.Int("tmoevery", 1, "probe WaitTimeout on every k-th case (0 = never)")
 	file := flag.String("file", "", "replay: JSON file with progs and sched")
+	secs := flag.Float64("secs", 0, "stress: run for this many seconds (0 = -n iterations)")
 	flag.BoolVar(&readable, "readable", false, "write the cases as readable WGCase terms instead of packed words")
 	flag.Parse()
 	if *mode == "stress" {
-		if stress(*seed, *n) > 0 {
+		var em *emitter
+		if *outp != "" {
+			em = &emitter{out: gal.NewOut(*outp)}
+		}
+		nbad := stress(*seed, *n, *secs, em, *maxCases)
+		if em != nil {
+			em.out.Close()
+		}
+		if nbad > 0 && *outp == "" {
 			os.Exit(1)
 		}
 		return
